@@ -12,7 +12,7 @@
 From Coq Require Import ZArith List Bool String.
 From BB Require Import Base.PyBase Model.Items Spec.Utf8 Spec.Data.
 From BB Require Import Proofs.DataInt Proofs.DataUtf8 Proofs.DataSizes Proofs.DataMain.
-From BB Require Import Model.Passes.
+From BB Require Import Model.Passes Gen.Sizes Proofs.SizesTable.
 Import ListNotations.
 Open Scope Z_scope.
 
@@ -145,3 +145,35 @@ Example C10_sizes_example :
                           ({| lfile := "f"; lnum := 5 |}, ISeq "longlongs" ["1"; "-1"]%string);
                           ({| lfile := "f"; lnum := 6 |}, IIncBytes "blob.bin" 3 (Some 3))]%string = Passes.Done cs.
 Proof. eexists. vm_compute. reflexivity. Qed.
+
+(* The tables the statements above range over are the tables of the SOURCE: the model's size(), width and format tables equal
+   what tools/units_sizes.py regenerates on every run from the size() methods and the `sizes` / `formats` dictionaries of asm.py
+   (Gen/Sizes.v), and every format of the source's tables occupies exactly the width its size() table announces. *)
+Theorem C10_size_from_source : forall it,
+  Passes.size it = match assoc_str (SizesTable.class_of it) Gen.Sizes.size_kinds with
+                   | Some k => SizesTable.size_by_kind k it | None => None end.
+Proof. exact SizesTable.size_table. Qed.
+Print Assumptions C10_size_from_source.
+
+Theorem C10_tables_from_source : forall n,
+  Passes.seq_width n = assoc_str n Gen.Sizes.seq_sizes /\ Passes.short_width n = assoc_str n Gen.Sizes.short_sizes /\
+  Passes.seq_fmt n = assoc_str n Gen.Sizes.seq_formats /\ Passes.short_fmt n = assoc_str n Gen.Sizes.short_formats.
+Proof. intro n. repeat split. Qed.
+Print Assumptions C10_tables_from_source.
+
+(* the documented directive/width tables of the Spec are the source's tables *)
+Theorem C10_spec_tables_from_source :
+  shorthand_table = Gen.Sizes.short_sizes /\ seq_table = Gen.Sizes.seq_sizes.
+Proof. split; reflexivity. Qed.
+Print Assumptions C10_spec_tables_from_source.
+
+Theorem C10_formats_match_sizes :
+  (forall n w, In (n, w) Gen.Sizes.seq_sizes -> exists f, assoc_str n Gen.Sizes.seq_formats = Some f /\
+      Passes.calcsize (String.append "<" f) = Some w /\ Passes.calcsize (String.append "<" (lower f)) = Some w) /\
+  (forall n w, In (n, w) Gen.Sizes.short_sizes -> exists f, assoc_str n Gen.Sizes.short_formats = Some f /\
+      Passes.calcsize (String.append "<" f) = Some w /\ Passes.calcsize (String.append "<" (lower f)) = Some w).
+Proof.
+  split; intros n w H; cbn in H;
+    repeat (destruct H as [H|H]; [inversion H; subst; eexists; repeat split; vm_compute; reflexivity|]); contradiction.
+Qed.
+Print Assumptions C10_formats_match_sizes.
